@@ -92,6 +92,10 @@ class Check:
     def extra_evidence(self):
         return {}
 
+    def final_problems(self):
+        """Reasons (strings) why this run must not be reported as 'held' although nothing was violated."""
+        return []
+
 
 class Pools:
     def __init__(self):
@@ -346,6 +350,7 @@ def run_check(check, tier, seed, replay=None):
             problems.append('required buckets short: ' + ', '.join(f'{k}={n}' for k, n in list(short.items())[:8]))
         if stats['held'] == 0:
             problems.append('no case was judged')
+        problems += list(check.final_problems() or [])
         if problems:
             rc = 2
             for p in problems:
@@ -364,6 +369,7 @@ def run_check(check, tier, seed, replay=None):
         'probes_unavailable': sorted(unavailable),
         'cli_crosschecked': cross['checked'],
         'cli_crosscheck_mismatch': cross['mismatch'],
+        'cli_crosscheck_mismatch_examples': (cross.get('examples') or [])[:3],
         'known_findings_hit': known_hits,
         'inconclusive': inconc,
         'dont_care_reasons': dict(sorted(dc_reasons.items(), key=lambda kv: -kv[1])[:20]),
